@@ -973,6 +973,80 @@ def analyse_builder(prog, F, W, fn):
             else:
                 F.add('R05b', p, fn, whatp, 'violation', 'no `+= get(caller map, %s)` next to the push_back' % (prog.vars[ev]['name'] if ev is not None else '?'),
                       key='R05b|%s|pairing' % fn.g)
+    # R06d: every closing path is read from maps that the search of *this* edge filled from a clean state
+    whatd = 'the shortest-path maps behind each closing path are filled by a search run for this edge on freshly initialised storage'
+    LOOPK = ('ForStmt', 'WhileStmt', 'CXXForRangeStmt', 'DoStmt')
+    for f in fns:
+        fcfg = f.cfg
+        for n in f.walk():
+            if not (n.k == 'CallExpr' and n.callee and n.callee['g'] == 'parmcb::dijkstra' and len(n.args()) >= 5):
+                continue
+            loop = n.enclosing(*LOOPK)
+            if loop is None:
+                F.add('R06d', n, fn, whatd, 'undecided', 'dijkstra is not called inside a per-edge loop')
+                continue
+            probs, und = [], []
+            # (1) unconditional per iteration?
+            from .phase import post_dominates_within
+            body = loop.body
+            first = body.c[0] if body is not None and body.k == 'CompoundStmt' and body.c else body
+            pf, pn = (fcfg.pos_of(first) if first is not None else None), fcfg.pos_of(n)
+            uncond = bool(pf and pn and (pf[0] == pn[0] or post_dominates_within(fcfg, pn[0], pf[0], loop))) if loop.cond is not None else bool(pf and pn and pf[0] == pn[0])
+            if not uncond and pf and pn:
+                # range-for loops have no plain cond node: fall back to control dependence inside the body
+                conds = [c_ for (c_, _p) in ex.ast_conditions(n) if body is not None and body.is_ancestor_of(c_)]
+                uncond = not conds
+            callee = prog.fn_of_fref(n.callee_id) if n.callee_id is not None else None
+            early = False
+            if callee is not None:
+                for lp in callee.walk():
+                    if lp.k in ('WhileStmt', 'ForStmt') and lp.cond is not None and any(
+                            x.k == 'CXXMemberCallExpr' and x.callee and x.callee['name'] == 'empty' for x in lp.cond.walk()):
+                        exits = [x for x in (lp.body.walk() if lp.body is not None else ()) if x.k == 'ReturnStmt' or
+                                 (x.k == 'BreakStmt' and x.enclosing('WhileStmt', 'ForStmt', 'DoStmt', 'CXXForRangeStmt') is lp)]
+                        if exits:
+                            early = True
+            if not uncond:
+                if early:
+                    probs.append('the search is skipped on some iterations (the tree of an earlier edge is reused) although parmcb::dijkstra stops as soon as '
+                                 'its own target is settled: the reused tree does not reach the new target, the "cycle" is the edge alone or a wrong path')
+                else:
+                    und.append('the search is skipped on some iterations (reuse of an earlier tree)')
+            # (2) fresh storage
+            for ai in (3, 4):
+                mv = ex.var_of(n.args()[ai])
+                md = ex.unique_def(f, mv) if mv is not None else None
+                decl = [d for d in f.walk() if d.k == 'VarDecl' and d.decl_id == mv]
+                src = decl[0] if decl else None
+                vecs = set()
+                for x in (src.walk() if src is not None else ()):
+                    if x.k == 'DeclRefExpr' and x.decl_id is not None and x.decl_id != mv and prog.rec_name(prog.vars[x.decl_id]['ty']) == 'std::vector':
+                        vecs.add(x.decl_id)
+                if not vecs:
+                    und.append('storage behind `%s` not found' % n.args()[ai].text(20))
+                    continue
+                for vv in vecs:
+                    vdecl = [d for d in f.walk() if d.k == 'VarDecl' and d.decl_id == vv]
+                    if vdecl and loop.is_ancestor_of(vdecl[0]) and vdecl[0].c and prog.vars[vv]['kind'] == 'local':
+                        continue        # declared (and initialised) anew in every iteration
+                    reinit = False
+                    for x in f.walk():
+                        if x.k == 'CallExpr' and x.callee and x.callee['g'] in ('std::fill', 'std::fill_n') and x.args() and ex.var_of(
+                                x.args()[0].strip_all().object_arg() if x.args()[0].strip_all().k == 'CXXMemberCallExpr' else x.args()[0]) == vv:
+                            if loop.is_ancestor_of(x) and fcfg.dominates(x, n):
+                                reinit = True
+                        if x.k == 'CXXMemberCallExpr' and x.callee and x.callee['name'] == 'assign' and ex.var_of(x.object_arg()) == vv and \
+                                loop.is_ancestor_of(x) and fcfg.dominates(x, n):
+                            reinit = True
+                    if not reinit:
+                        probs.append('`%s` is declared outside the per-edge loop and not re-initialised before the search (parmcb::dijkstra does not '
+                                     'initialise its maps): labels and predecessors of the previous edge remain' % prog.vars[vv]['name'])
+            if probs:
+                F.add('R06d', n, fn, whatd, 'violation', '; '.join(sorted(set(probs))), key='R06d|%s|stale' % fn.g)
+            elif und:
+                F.add('R06d', n, fn, whatd, 'undecided', '; '.join(und))
+            else:
+                F.add('R06d', n, fn, whatd, 'ok', 'search called on every iteration; dist / pred vectors declared inside the loop')
     # any other search routine of the library run on the spanner from inside the builder
     wtypes = set()
     for f in fns:
